@@ -37,7 +37,7 @@ DECOY_FORMS = [
 
 def gen_plan(rng, idx, fault_population=False):
     nfiles = rng.choice([1, 2, 2, 3, 3, 4, 4, 5, 6])
-    style = rng.choice(['f', 'f', 'named', 'subdir', 'dotted'])
+    style = rng.choice(['f', 'f', 'named', 'subdir', 'dotted', 'dotslash'])
     pool_named = ['main', 'intro', 'config', 'fig', 'figure', 'chap', 'app',
                   'fig2', 'prefig']
     if style == 'named':
@@ -49,6 +49,11 @@ def gen_plan(rng, idx, fault_population=False):
                  else pre + '2.%d' % i for i in range(nfiles)]
         if len(set(stems)) < nfiles:
             stems = [pre + '2.%d' % i for i in range(nfiles)]
+    elif style == 'dotslash':
+        # names that begin with '.' or contain './' and '../' (each file is
+        # always referred to by one and the same spelling)
+        stems = [rng.choice(['./', '../common/', '.hidden', '../', './sub/',
+                             '.../x']) + 'f%d' % i for i in range(nfiles)]
     elif style == 'subdir':
         stems = [('sub/' if rng.random() < 0.5 else '') + 'f%d' % i
                  for i in range(nfiles)]
